@@ -37,6 +37,28 @@ theorem remove_specPair (pm : Mask) (pvals : List Val) (hl : pvals.length = pm.l
         · simp only [List.filter_cons, h1, Bool.false_eq_true, if_false, List.find?_cons, h2]; exact ih
   rw [this, find_zip_some hl hx]
 
+/-- … and for a component the entity did not have: default-constructed -/
+theorem remove_specPair_new (pm : Mask) (pvals : List Val) (comp : CompId) (x : CompId) (hx : x ∉ pm) :
+    specPair info ((pm.zip pvals).filter (·.1 != comp)) [] x = (x, defaultVal info x) := by
+  unfold specPair
+  have : ((pm.zip pvals).filter (·.1 != comp)).find? (·.1 == x) = none := by
+    rw [List.find?_eq_none]
+    intro p hp
+    have : p.1 ∈ pm := (List.of_mem_zip (List.mem_filter.mp hp).1).1
+    simp only [beq_iff_eq]
+    intro e; exact hx (e ▸ this)
+  rw [this]; rfl
+
+theorem zip_specPair_new (pm : Mask) (pvals : List Val) (x : CompId) (hx : x ∉ pm) :
+    specPair info (pm.zip pvals) [] x = (x, defaultVal info x) := by
+  unfold specPair
+  rw [find_zip_none hx]; rfl
+
+theorem zip_specPair_old (pm : Mask) (pvals : List Val) (hl : pvals.length = pm.length) (x : CompId) (hx : x ∈ pm) :
+    specPair info (pm.zip pvals) [] x = (x, pvals.getD (pm.idxOf x) none) := by
+  unfold specPair
+  rw [find_zip_some hl hx]
+
 theorem remove_unlocked_refines {c : CW} {s : WS} (hi : Inv c) (hb : Bounds c) (hr : Rel c s)
     (hl : c.w.isLocked = false) (t : Nat) (e : Handle) (comp : CompId) :
     StepRefines info c s (.remove t e comp) := by
@@ -86,11 +108,6 @@ theorem remove_unlocked_refines {c : CW} {s : WS} (hi : Inv c) (hb : Bounds c) (
   generalize htmdef : closedMask w.deps m = tm at *
   have hmok : MaskOk m := by rw [← hmdef]; exact maskOk_erase hpm comp
   have htmok : MaskOk tm := by rw [← htmdef]; exact maskOk_closedMask w.deps hmok
-  have hpclosed : ClosedUnder w.deps (w.arch pi).mask := hi.closed _ (arch_mem hpi)
-  have hsub : ∀ x ∈ tm, x ∈ (w.arch pi).mask := by
-    intro x hx
-    rw [← htmdef] at hx
-    exact closedMask_least hpclosed (fun y hy => by rw [← hmdef] at hy; exact ((mem_erase _ _ _).mp hy).1) x hx
   have hafter : closed s.deps (Mask.erase (w.arch pi).mask comp) = tm := by
     rw [hdeps, hmdef, ← htmdef]; rfl
   rcases getArch_move info hi.rows m (w.arch pi).shared e pi i [] prow hrow2 hent (fun _ => hmok) with
@@ -137,36 +154,40 @@ theorem remove_unlocked_refines {c : CW} {s : WS} (hi : Inv c) (hb : Bounds c) (
       have hkey := getArch_key w m (w.arch pi).shared
       have ha : (w.getArch m (w.arch pi).shared).1.arch pi = w.arch pi := getArch_arch_lt w _ _ pi hpi
       exact hti (hk1.distinct _ pi (getArch_idx_lt w m _) hpi1 (by rw [hkey.1, ha, htmdef, heq]) (by rw [hkey.2, ha]))
-    have hcnt : comp ∉ tm := by
-      intro hct
-      apply hne
-      apply sorted_ext htmok hpm
-      intro x
-      constructor
-      · exact hsub x
-      · intro hx
-        by_cases hxc : x = comp
-        · rw [hxc]; exact hct
-        · rw [← htmdef]; exact subset_closedMask (by rw [← hmdef]; exact (mem_erase _ _ _).mpr ⟨hx, hxc⟩)
     have hbne : (tm == (w.arch pi).mask) = false := by simpa using hne
     have hs : s.step info (Op.mapRef (ordOf iss) (.remove t e comp)) =
-        (s.setEnt k (some { ent with comps := rebuild info (ent.comps.filter (·.1 != comp)) tm [] }), .ok,
-          cbDiff info k (w.arch pi).mask tm) := by
-      have hcn : tm.contains comp = false := by simpa using hcnt
+        (s.setEnt k (some { ent with
+            comps := rebuild info (if tm.contains comp then ent.comps else ent.comps.filter (·.1 != comp)) tm [] }),
+          .ok, cbDiff info k (w.arch pi).mask tm) := by
       simp only [Op.mapRef, WS.step, hnl, if_false, hord2, WS.doRemove, hal, hcs, hcc, Bool.not_true, Bool.false_eq_true,
-        hafter, hbne, hcn]
-    have hcomps : rebuild info (ent.comps.filter (·.1 != comp)) tm [] =
+        hafter, hbne]
+    have hcomps : rebuild info (if tm.contains comp then ent.comps else ent.comps.filter (·.1 != comp)) tm [] =
         (w2.arch (w.getArch m (w.arch pi).shared).2).mask.zip (carry info tm (w.arch pi).mask prow []) := by
       rw [hmask]
       symm
       apply zip_eq_rebuild info (maskOk_nodup htmok) (carry_length info _ _ _ _)
       intro x hx
-      have hxp := hsub x hx
-      have hxc : x ≠ comp := fun e => hcnt (e ▸ hx)
-      rw [hrel.1, remove_specPair info _ _ hplen comp x hxp hxc, carry_get info _ _ _ _ x hx,
-        carried_of_mem info _ _ _ x hxp]
+      rw [carry_get info _ _ _ _ x hx, hrel.1]
+      by_cases hxp : x ∈ (w.arch pi).mask
+      · rw [carried_of_mem info _ _ _ x hxp]
+        cases hct : tm.contains comp with
+        | true => simp only [if_true]; exact zip_specPair_old info _ _ hplen x hxp
+        | false =>
+          simp only [Bool.false_eq_true, if_false]
+          have hxc : x ≠ comp := fun e => by
+            rw [e] at hx
+            have : tm.contains comp = true := by simpa using hx
+            rw [hct] at this; cases this
+          exact remove_specPair info _ _ hplen comp x hxp hxc
+      · rw [carried_of_not_mem info _ _ _ x hxp]
+        have hnil : ([] : Mask).contains x = false := rfl
+        simp only [hnil, Bool.false_eq_true, if_false]
+        cases hct : tm.contains comp with
+        | true => simp only [if_true]; exact zip_specPair_new info _ _ x hxp
+        | false => simp only [Bool.false_eq_true, if_false]; exact remove_specPair_new info _ _ comp x hxp
     have hrel' := moved_rel (sh := (w.arch pi).shared) hi hr hk2 hv2 hshin hm hsh' hshd
-      { ent with comps := rebuild info (ent.comps.filter (·.1 != comp)) tm [] } hcomps (fun sid => hrel.2 sid)
+      { ent with comps := rebuild info (if tm.contains comp then ent.comps else ent.comps.filter (·.1 != comp)) tm [] }
+      hcomps (fun sid => hrel.2 sid)
     have hstep : CW.step info ⟨w, iss⟩ (.remove t e comp) = (⟨w2, iss⟩, .ok, cbs) := by
       simp only [CW.step, WM.step, hmodel, issueOut]
     unfold StepRefines
@@ -184,26 +205,19 @@ theorem remove_unlocked_refines {c : CW} {s : WS} (hi : Inv c) (hb : Bounds c) (
       rw [hsome] at this
       exact (Prod.mk.inj (Option.some.inj this)).2
     have hrow1 : ((w.getArch m (w.arch pi).shared).1.arch pi).rows[i]? = some prow := by rw [hw1pi]; exact hrow2
-    have hmove : moveCbs info (w.getArch m (w.arch pi).shared).1 (w.getArch m (w.arch pi).shared).2 e pi [] = [] := by
+    have hmove : moveCbs info (w.getArch m (w.arch pi).shared).1 (w.getArch m (w.arch pi).shared).2 e pi [] =
+        (tm.filter (fun c => (info c).callbacks && !(w.arch pi).mask.contains c)).map (Cb.assign · e) := by
       rw [moveCbs, hw1pi, hw1ti]
-      have : tm.filter (fun c => !(w.arch pi).mask.contains c && (info c).callbacks && !([] : Mask).contains c) = [] := by
-        rw [List.filter_eq_nil_iff]
-        intro x hx
-        have := hsub x hx
-        simp [this]
-      rw [this]; rfl
+      congr 1
+      apply List.filter_congr
+      intro x _
+      have hnil : ([] : Mask).contains x = false := rfl
+      rw [hnil]
+      cases (w.arch pi).mask.contains x <;> cases (info x).callbacks <;> rfl
     unfold cbsAgree
-    rw [hcbs, hmove, List.nil_append, archRemove_cbs info _ pi i _ prow hrow1, hw1pi, hw1ti, hent,
-      cbAbs_remove_map hord2]
-    have hd : cbDiff info k (w.arch pi).mask tm =
-        ((w.arch pi).mask.filter (fun c => (info c).callbacks && !tm.contains c)).map (fun x => ((false, x, k) : SCb)) := by
-      unfold cbDiff
-      have : tm.filter (fun c => (info c).callbacks && !(w.arch pi).mask.contains c) = [] := by
-        rw [List.filter_eq_nil_iff]
-        intro x hx
-        have := hsub x hx
-        simp [this]
-      rw [this]; rfl
-    rw [hd]
+    rw [hcbs, hmove, archRemove_cbs info _ pi i _ prow hrow1, hw1pi, hw1ti, hent, List.map_append,
+      cbAbs_assign_map hord2, cbAbs_remove_map hord2]
+    unfold cbDiff
+    rw [List.map_append]
 
 end Mustache.Proofs.Refine
